@@ -179,6 +179,9 @@ def gammastd(x, nodata, cal_start, cal_stop, a=0, b=0):
         if val >= 0:
             n_valid += 1
 
+    if n_valid == 0:
+        return np.full_like(x, nodata, dtype="float64")
+
     p_zero = n_zero / n_valid
 
     if p_zero > 0.9:
@@ -244,6 +247,8 @@ def gammastd_yxt(
                         continue
                     s[ti] = s[ti] * 1000
                 np.round(s, 0, s)
+                # saturate: an infinite or huge index must not wrap in the int16 store
+                np.clip(s, -32767, 32767, s)
                 y[ri, ci, :] = s[:]
 
     return y
@@ -283,6 +288,8 @@ def gammastd_grp(xx, groups, num_groups, nodata, cal_indices, yy):
             valid_ix = res != nodata
             res[valid_ix] = res[valid_ix] * 1000
             np.round(res, 0, res)
+            # saturate: an infinite or huge index must not wrap in the int16 store
+            np.clip(res, -32767, 32767, res)
         yy[grp_ix] = res[:]
 
 
